@@ -26,6 +26,7 @@ def plan(tier, seed):
     nr = 5 if tier == 'quick' else 24
     for i in range(nr):
         shards.append({'name': 'random-%d' % i, 'fn': 'shard_random', 'args': {'part': i, 'parts': nr}})
+    shards.append({'name': 'random-interpreted', 'fn': 'shard_random', 'args': {'part': 1, 'parts': nr}, 'env': {'NUMBA_DISABLE_JIT': '1'}})     # kernels run by the interpreter
     npl = 4 if tier == 'quick' else 20
     for i in range(npl):
         shards.append({'name': 'planted-%d' % i, 'fn': 'shard_planted', 'args': {'part': i, 'parts': npl}})
